@@ -2856,7 +2856,9 @@ def cbcheck(
         # reorder mass and stiffness:
         m = cbreorder(m, bseto)
         k = cbreorder(k, bseto)
-        i = np.argsort(bseto)
+        # row j of the reordered matrices is b-set DOF bseto[j]; `uset`
+        # is in ascending DOF order, so take its rows by rank:
+        i = np.argsort(np.argsort(bseto))
         uset = uset.iloc[i]
 
         # define "new" order of b-set:
